@@ -303,6 +303,23 @@ fn judge_sample<F: Fl + Into<f64>>(xs: &Vec<F>, confs: &[(Kind, f64)], s: &mut S
 
 // ---------------- comparisons ---------------------------------------------------------
 
+/// an iterable whose iterator gives no size hint ((0, None), like `flatten`)
+struct NoHint<F>(Vec<F>);
+struct NoHintIter<'a, F>(std::slice::Iter<'a, F>);
+impl<'a, F> Iterator for NoHintIter<'a, F> {
+    type Item = &'a F;
+    fn next(&mut self) -> Option<&'a F> {
+        self.0.next()
+    }
+}
+impl<'a, F> IntoIterator for &'a NoHint<F> {
+    type Item = &'a F;
+    type IntoIter = NoHintIter<'a, F>;
+    fn into_iter(self) -> NoHintIter<'a, F> {
+        NoHintIter(self.0.iter())
+    }
+}
+
 fn judge_pairs<F: Fl + Into<f64>>(a: &Vec<F>, b: &Vec<F>, confs: &[(Kind, f64)], s: &mut Sink) {
     let bad = |v: &Vec<F>| v.iter().any(|x| !x.is_finite());
     let (af, bf): (Vec<f64>, Vec<f64>) = (a.iter().map(|x| x.f()).collect(), b.iter().map(|x| x.f()).collect());
@@ -364,6 +381,12 @@ fn judge_pairs<F: Fl + Into<f64>>(a: &Vec<F>, b: &Vec<F>, confs: &[(Kind, f64)],
         let d = |ep: &str| format!("{ep}<{}>({c:?}, {af:?}, {bf:?})", F::NAME);
         let o = out_of(mc::catch(AssertUnwindSafe(|| Paired::<F>::ci(c, a, b))));
         judge("Paired::ci", &exp_p, &o, &|| d("Paired::ci"), &|| case(kind, level), s);
+        // the same through iterables without a size hint (the iterator protocol allows it)
+        let (na, nb) = (NoHint(a.clone()), NoHint(b.clone()));
+        let o = out_of(mc::catch(AssertUnwindSafe(|| Paired::<F>::ci(c, &na, &nb))));
+        judge("Paired::ci(no size hint)", &exp_p, &o, &|| d("Paired::ci through iterators without size hint"), &|| case(kind, level), s);
+        let o = out_of(mc::catch(AssertUnwindSafe(|| Unpaired::<F>::ci(c, &na, &nb))));
+        judge("Unpaired::ci(no size hint)", &exp_u, &o, &|| d("Unpaired::ci through iterators without size hint"), &|| case(kind, level), s);
         let o = out_of(mc::catch(AssertUnwindSafe(|| {
             let mut st = Paired::<F>::default();
             st.extend(a, b)?;
@@ -493,10 +516,11 @@ fn judge_counts(n: usize, k: usize, confs: &[(Kind, f64)], s: &mut Sink) {
     match r {
         Err(m) => s.violation(format!("proportion::is_significant/{}/panic", if k > n { "k>n" } else { "k<=n" }), format!("proportion::is_significant({n}, {k}) panicked: {m}"), case(Kind::Two, 0.95)),
         Ok(b) => {
-            let exp = n > 30 && k > 5 && k <= n && n - k > 5;
+            // (its thresholds are not part of any listed property: only totality is judged;
+            // k > n can never be significant)
             s.outcome(&("is_significant", b));
-            if b != exp {
-                s.violation("proportion::is_significant/wrong-answer", format!("is_significant({n}, {k}) = {b}"), case(Kind::Two, 0.95));
+            if b && k > n {
+                s.violation("proportion::is_significant/true-for-invalid-counts", format!("is_significant({n}, {k}) = {b}"), case(Kind::Two, 0.95));
             }
         }
     }
@@ -661,7 +685,7 @@ enum Job {
 
 fn confs_for(tier: Tier) -> Vec<(Kind, f64)> {
     match tier {
-        Tier::Quick => vec![(Kind::Two, 0.95), (Kind::Two, 0.001), (Kind::Upper, 0.9999), (Kind::Upper, 0.25), (Kind::Lower, 0.5), (Kind::Lower, 0.96875)],
+        Tier::Quick => vec![(Kind::Two, 0.95), (Kind::Two, 0.001), (Kind::Two, 0.9999), (Kind::Upper, 0.9999), (Kind::Upper, 0.25), (Kind::Upper, 0.001), (Kind::Lower, 0.5), (Kind::Lower, 0.96875), (Kind::Lower, 0.001)],
         Tier::Thorough => vcheck::confs(Tier::Quick),
     }
 }
